@@ -1,10 +1,5 @@
+use harness_mac::props;
 use verif_core::*;
-
-mod drive;
-mod enc;
-mod gen;
-mod props;
-mod visit;
 
 fn main() {
     install_panic_hook();
